@@ -310,6 +310,13 @@ func (store *HStore) GC(bucketID, beginChunkID, endChunkID, noGCDays int, merge,
 		return
 	}
 
+	if atomic.LoadInt32(&bkt.loadingHints) != 0 {
+		// a pass clears and rewrites the hints of the chunks it collects; the loader
+		// would dump hint files for chunks the pass has already moved
+		err = fmt.Errorf("bucket %d is still loading its hint files, try again later", bucketID)
+		return
+	}
+
 	checkGC := func() error {
 		store.gcMgr.mu.RLock()
 		defer store.gcMgr.mu.RUnlock()
